@@ -29,20 +29,42 @@ Qed.
 Lemma has_setbit : forall m x y, has (N.setbit m x) y = if N.eqb y x then true else has m y.
 Proof. intros m x y. exact (has_setb m x true y). Qed.
 
-(* ---- satisfaction ---- *)
-Definition val_sat (v : val) (q : av) : Prop :=
-  (fst q = true -> v <> VNil) /\ (snd q = true -> v <> VTNil).
-Definition sat (e : env) (a : ann) : Prop := forall x, val_sat (e x) (a_get a x).
-
-Lemma sat_le : forall e s t, a_le t s = true -> sat e s -> sat e t.
+Lemma mem_In : forall s l, mem s l = true -> In s l.
 Proof.
-  intros e s t Hle Hs x. unfold a_le in Hle. apply andb_true_iff in Hle. destruct Hle as [H1 H2].
-  destruct (Hs x) as [Ha Hb]. unfold a_get in *. simpl in *. split; intro Hx.
-  - apply Ha. eapply subset_spec; eauto.
-  - apply Hb. eapply subset_spec; eauto.
+  unfold mem. intros s l H. apply existsb_exists in H. destruct H as [y [Hy E]].
+  apply N.eqb_eq in E. subst. exact Hy.
 Qed.
 
-Lemma sat_set : forall e a x v q, sat e a -> val_sat v q -> sat (upd e x v) (a_set a x q).
+(* ---- satisfaction ---- *)
+Definition tnil (v : val) : bool := match v with VTNil _ => true | _ => false end.
+(* tn: the pointer types of which a typed nil may exist (p_tn of the program) *)
+Definition tn_ok (tn : list N) (v : val) : Prop := forall t, v = VTNil t -> In t tn.
+Definition val_sat (tn : list N) (v : val) (q : av) : Prop :=
+  (fst q = true -> v <> VNil) /\ (snd q = true -> tnil v = false) /\ tn_ok tn v.
+Definition sat (tn : list N) (e : env) (a : ann) : Prop := forall x, val_sat tn (e x) (a_get a x).
+
+Lemma tn_ok_ptr : forall tn, tn_ok tn VPtr.
+Proof. intros tn t H. discriminate H. Qed.
+Lemma tn_ok_nil : forall tn, tn_ok tn VNil.
+Proof. intros tn t H. discriminate H. Qed.
+Lemma sat_ptr : forall tn q, val_sat tn VPtr q.
+Proof. intros tn q. split; [intros _; discriminate | split; [reflexivity | apply tn_ok_ptr]]. Qed.
+Lemma sat_nil : forall tn b, val_sat tn VNil (false, b).
+Proof. intros tn b. split; [intro H; discriminate H | split; [reflexivity | apply tn_ok_nil]]. Qed.
+
+Section Sat.
+Variable tn : list N.
+
+Lemma sat_le : forall e s t, a_le t s = true -> sat tn e s -> sat tn e t.
+Proof.
+  intros e s t Hle Hs x. unfold a_le in Hle. apply andb_true_iff in Hle. destruct Hle as [H1 H2].
+  destruct (Hs x) as [Ha [Hb Hc]]. unfold a_get in *. simpl in *. split; [|split].
+  - intro Hx. apply Ha. eapply subset_spec; eauto.
+  - intro Hx. apply Hb. eapply subset_spec; eauto.
+  - exact Hc.
+Qed.
+
+Lemma sat_set : forall e a x v q, sat tn e a -> val_sat tn v q -> sat tn (upd e x v) (a_set a x q).
 Proof.
   intros e a x v q Hs Hv y. unfold upd, a_set, a_get. simpl. rewrite !has_setb.
   destruct (N.eqb y x).
@@ -50,7 +72,7 @@ Proof.
   - exact (Hs y).
 Qed.
 
-Lemma sat_setnn : forall e a x, sat e a -> e x <> VNil -> sat e (N.setbit (fst a) x, snd a).
+Lemma sat_setnn : forall e a x, sat tn e a -> e x <> VNil -> sat tn e (N.setbit (fst a) x, snd a).
 Proof.
   intros e a x Hs Hx y. unfold a_get. simpl. rewrite has_setbit.
   destruct (N.eqb y x) eqn:E.
@@ -58,72 +80,89 @@ Proof.
   - exact (Hs y).
 Qed.
 
-Lemma sat_setcl : forall e a x, sat e a -> e x <> VTNil -> sat e (fst a, N.setbit (snd a) x).
+Lemma sat_setcl : forall e a x, sat tn e a -> tnil (e x) = false -> sat tn e (fst a, N.setbit (snd a) x).
 Proof.
   intros e a x Hs Hx y. unfold a_get. simpl. rewrite has_setbit.
   destruct (N.eqb y x) eqn:E.
-  - apply N.eqb_eq in E. subst y. split; [exact (proj1 (Hs x)) | intros _; exact Hx].
+  - apply N.eqb_eq in E. subst y. destruct (Hs x) as [Ha [_ Hc]].
+    split; [exact Ha | split; [intros _; exact Hx | exact Hc]].
   - exact (Hs y).
 Qed.
 
-Lemma upd_same : forall e x, (fun y => if N.eqb y x then e x else e y) = upd e x (e x).
-Proof. reflexivity. Qed.
-
-Lemma sat_ext : forall e e' a, (forall x, e x = e' x) -> sat e a -> sat e' a.
+Lemma sat_ext : forall e e' a, (forall x, e x = e' x) -> sat tn e a -> sat tn e' a.
 Proof. intros e e' a H Hs x. rewrite <- H. exact (Hs x). Qed.
 
-Lemma sat_set_same : forall e a x q, sat e a -> val_sat (e x) q -> sat e (a_set a x q).
+Lemma sat_set_same : forall e a x q, sat tn e a -> val_sat tn (e x) q -> sat tn e (a_set a x q).
 Proof.
   intros e a x q Hs Hv. apply (sat_ext (upd e x (e x))).
   - intro y. unfold upd. destruct (N.eqb y x) eqn:E; [apply N.eqb_eq in E; subst; reflexivity | reflexivity].
   - apply sat_set; assumption.
 Qed.
 
-Lemma arg_sound : forall e a g, sat e a -> val_sat (eval_arg e g) (arg_av a g).
+Lemma arg_sound : forall e a g, sat tn e a -> val_sat tn (eval_arg e g) (arg_av a g).
 Proof.
   intros e a g Hs. destruct g as [x | |]; simpl.
   - exact (Hs x).
-  - split; intros _; discriminate.
-  - split; [intro H; discriminate | intros _; discriminate].
+  - apply sat_ptr.
+  - apply sat_nil.
 Qed.
 
-Lemma pick_clean : forall k, pick k false <> VTNil.
-Proof. intro k. destruct k as [|p]; simpl; [discriminate|]. destruct p; discriminate. Qed.
-
-Lemma rhs_sound : forall e a r o v o', sat e a -> eval_rhs e r o = (v, o') -> val_sat v (rhs_av a r).
+Lemma pick_sat : forall k d, val_sat tn (pick tn k d) (false, negb d).
 Proof.
-  intros e a r o v o' Hs He. destruct r as [ | | y | | | y | y | y ti]; simpl in *.
-  - inversion He; subst. split; intros _; discriminate.
-  - inversion He; subst. split; [intro H; discriminate | intros _; discriminate].
-  - inversion He; subst. exact (Hs y).
-  - destruct (pop o) as [k o'']. inversion He; subst. split; [intro H; discriminate | intros _; apply pick_clean].
-  - destruct (pop o) as [k o'']. inversion He; subst. split; intro H; discriminate H.
-  - inversion He; subst. destruct (Hs y) as [H1 H2]. unfold a_get in *. simpl in *. split.
+  intros k d. unfold pick.
+  destruct (N.eqb k 0); [apply sat_nil|].
+  destruct (N.eqb k 1); [apply sat_ptr|].
+  destruct d; [|apply sat_ptr].
+  destruct (nth_error tn (N.to_nat (k - 2))) as [t|] eqn:En; [|apply sat_ptr].
+  split; [intro H; discriminate H | split; [intro H; discriminate H|]].
+  intros t' Ht. inversion Ht; subst. eapply nth_error_In; eauto.
+Qed.
+
+Lemma rhs_sound : forall P e a r o v o', sat tn e a -> p_tn P = tn -> rhs_chk P a r = true ->
+  eval_rhs tn e r o = (v, o') -> val_sat tn v (rhs_av a r).
+Proof.
+  intros P e a r o v o' Hs Htn Hchk He. destruct r as [ | | y | | | y t | y | y ti]; simpl in *.
+  - injection He as Hv Ho; subst v o'. apply sat_ptr.
+  - injection He as Hv Ho; subst v o'. apply sat_nil.
+  - injection He as Hv Ho; subst v o'. exact (Hs y).
+  - destruct (pop o) as [k o'']. injection He as Hv Ho; subst v o'. exact (pick_sat k false).
+  - destruct (pop o) as [k o'']. injection He as Hv Ho; subst v o'. exact (pick_sat k true).
+  - injection He as Hv Ho; subst v o'. destruct (Hs y) as [H1 [H2 H3]]. unfold a_get in *. simpl in *. split; [|split].
     + intros _. destruct (e y); discriminate.
     + intro H. apply andb_true_iff in H. destruct H as [Ha Hb]. specialize (H1 Ha). specialize (H2 Hb).
-      destruct (e y); simpl; congruence.
-  - inversion He; subst. destruct (Hs y) as [H1 H2]. unfold a_get in *. simpl in *. split.
+      destruct (e y); simpl in *; congruence.
+    + intros t' Ht. destruct (e y) eqn:Ey; simpl in Ht.
+      * injection Ht as Ht; subst t'. rewrite Htn in Hchk. apply orb_true_iff in Hchk. destruct Hchk as [Hn | Hm].
+        -- exfalso. apply (H1 Hn). reflexivity.
+        -- apply mem_In. exact Hm.
+      * apply H3. exact Ht.
+      * discriminate Ht.
+  - injection He as Hv Ho; subst v o'. destruct (Hs y) as [H1 [H2 H3]]. unfold a_get in *. simpl in *. split; [|split].
     + intro H. apply andb_true_iff in H. destruct H as [Ha Hb]. specialize (H1 Ha). specialize (H2 Hb).
-      destruct (e y); simpl; congruence.
-    + intros _. destruct (e y); discriminate.
-  - inversion He; subst. destruct (Hs y) as [H1 H2]. unfold a_get in *. simpl in *. split.
+      destruct (e y); simpl in *; congruence.
+    + intros _. destruct (e y); reflexivity.
+    + intros t' Ht. destruct (e y); discriminate Ht.
+  - injection He as Hv Ho; subst v o'. destruct (Hs y) as [H1 [H2 H3]]. unfold a_get in *. simpl in *. split; [|split].
     + intro H. apply andb_true_iff in H. destruct H as [Ha Hb]. specialize (H1 Ha).
       destruct (e y) eqn:Ey; simpl; try congruence.
-      destruct ti; simpl in *; [discriminate | specialize (H2 Hb); congruence].
-    + intro H. destruct (e y) eqn:Ey; simpl; try discriminate.
-      destruct ti; simpl in *; [specialize (H2 H); congruence | discriminate].
+      destruct ti; simpl in *; [discriminate | specialize (H2 Hb); discriminate H2].
+    + intro H. destruct (e y) eqn:Ey; simpl; try reflexivity.
+      destruct ti; simpl in *; [specialize (H2 H); discriminate H2 | reflexivity].
+    + intros t' Ht. destruct (e y) eqn:Ey; simpl in Ht; try discriminate Ht.
+      destruct ti; [apply H3; exact Ht | discriminate Ht].
 Qed.
 
-Lemma av_ok_sat : forall req got v, av_ok req got = true -> val_sat v got -> val_sat v req.
+Lemma av_ok_sat : forall req got v, av_ok req got = true -> val_sat tn v got -> val_sat tn v req.
 Proof.
-  intros [r1 r2] [g1 g2] v H [H1 H2]. unfold av_ok in H. simpl in *. apply andb_true_iff in H. destruct H as [Ha Hb].
-  split; intro Hr; simpl in Hr; subst.
-  - apply H1. destruct g1; [reflexivity | simpl in Ha; discriminate Ha].
-  - apply H2. destruct g2; [reflexivity | simpl in Hb; discriminate Hb].
+  intros [r1 r2] [g1 g2] v H [H1 [H2 H3]]. unfold av_ok in H. simpl in *. apply andb_true_iff in H. destruct H as [Ha Hb].
+  split; [|split].
+  - intro Hr; simpl in Hr; subst. apply H1. destruct g1; [reflexivity | simpl in Ha; discriminate Ha].
+  - intro Hr; simpl in Hr; subst. apply H2. destruct g2; [reflexivity | simpl in Hb; discriminate Hb].
+  - exact H3.
 Qed.
 
-Lemma all2_sat : forall e a reqs gs, sat e a -> all2 av_ok reqs (map (arg_av a) gs) = true ->
-  Forall2 val_sat (map (eval_arg e) gs) reqs.
+Lemma all2_sat : forall e a reqs gs, sat tn e a -> all2 av_ok reqs (map (arg_av a) gs) = true ->
+  Forall2 (val_sat tn) (map (eval_arg e) gs) reqs.
 Proof.
   intros e a reqs. induction reqs as [|q reqs IH]; intros gs Hs H; destruct gs as [|g gs]; simpl in *; try discriminate.
   - constructor.
@@ -132,8 +171,8 @@ Proof.
     + apply IH; assumption.
 Qed.
 
-Lemma assign_sat : forall rets vals rs e a, sat e a -> Forall2 val_sat vals rs ->
-  sat (assign rets vals e) (assign_av a rets rs).
+Lemma assign_sat : forall rets vals rs e a, sat tn e a -> Forall2 (val_sat tn) vals rs ->
+  sat tn (assign rets vals e) (assign_av a rets rs).
 Proof.
   induction rets as [|r rets IH]; intros vals rs e a Hs HF.
   - simpl. exact Hs.
@@ -142,16 +181,13 @@ Proof.
     + inversion HF as [|v q vs qs Hv HF']; subst; [exact Hs|]. apply IH; assumption.
 Qed.
 
-Lemma entry_sat : forall ps vals i, Forall2 val_sat vals ps ->
-  sat (fun x => nth (N.to_nat x - N.to_nat i) vals VNil) (entry_ann i ps) \/ True.
-Proof. intros; right; exact I. Qed.
-
 (* the entry annotation only speaks about parameters, whose values meet the spec *)
-Lemma entry_sat' : forall ps vals i, Forall2 val_sat vals ps ->
-  forall x, val_sat (if N.ltb x i then VPtr else nth (N.to_nat (x - i)) vals VNil) (a_get (entry_ann i ps) x).
+Lemma entry_sat' : forall ps vals i, Forall2 (val_sat tn) vals ps ->
+  forall x, val_sat tn (if N.ltb x i then VPtr else nth (N.to_nat (x - i)) vals VNil) (a_get (entry_ann i ps) x).
 Proof.
   induction ps as [|q ps IH]; intros vals i HF x.
-  - simpl. unfold a_get, has. simpl. rewrite ?N.bits_0. split; intro H; discriminate H.
+  - inversion HF. simpl. unfold a_get, has. simpl. rewrite ?N.bits_0.
+    destruct (N.ltb x i); [apply sat_ptr|]. destruct (N.to_nat (x - i)); apply sat_nil.
   - inversion HF as [|v q' vs qs Hv HF']; subst. simpl entry_ann.
     unfold a_get, a_set. simpl fst. simpl snd. rewrite !has_setb.
     destruct (N.eqb x i) eqn:E.
@@ -168,17 +204,13 @@ Proof.
         simpl. exact IH.
 Qed.
 
-Lemma bind_sat : forall ps vals, Forall2 val_sat vals ps -> sat (bind_params vals) (entry_ann 0 ps).
+Lemma bind_sat : forall ps vals, Forall2 (val_sat tn) vals ps -> sat tn (bind_params vals) (entry_ann 0 ps).
 Proof.
   intros ps vals HF x. pose proof (entry_sat' ps vals 0 HF x) as H.
   assert (L : N.ltb x 0 = false) by (apply N.ltb_ge; lia). rewrite L, N.sub_0_r in H. exact H.
 Qed.
 
-Lemma mem_In : forall s l, mem s l = true -> In s l.
-Proof.
-  unfold mem. intros s l H. apply existsb_exists in H. destruct H as [y [Hy E]].
-  apply N.eqb_eq in E. subst. exact Hy.
-Qed.
+End Sat.
 
 (* ---- the invariant ---- *)
 Section Sound.
@@ -186,6 +218,10 @@ Variable c03 : bool.
 Variable P : prog.
 Variable allow : list N.
 Hypothesis Hchk : check_prog c03 P allow = true.
+
+Let tn := p_tn P.
+Let val_sat := val_sat tn.
+Let sat := sat tn.
 
 Definition nann (t : node) : ann := (nd_nn t, nd_cl t).
 
@@ -233,6 +269,7 @@ Definition outcome_ok (o : outcome) : Prop :=
   match o with
   | Next c => conf_ok c
   | Done vs => Forall2 val_sat vs main_results
+  | Halted => True
   | Bad s => In s allow
   | Stuck => False
   end.
@@ -243,69 +280,91 @@ Proof.
   pose proof (funcs_ok _ _ Hg) as Hcf.
   pose proof (node_ok_at _ _ _ Hcf Ht) as Hi.
   unfold step. rewrite Hg, Ht.
-  destruct (nd_instr t) as [x r n | x n1 n2 | x y ti n1 n2 | x s n | x m s n | f args rets n | n1 n2 | rs]; simpl in Hi.
+  destruct (nd_instr t) as [x r n | x n1 n2 | x y ti tgt n1 n2 | x s n | x m s n | f args rets n | n1 n2 | rs | ]; simpl in Hi.
   - (* ISet *)
-    destruct (eval_rhs (c_env c) r (c_orc c)) as [v o] eqn:Er.
+    apply andb_true_iff in Hi. destruct Hi as [Hrc Hi].
+    destruct (eval_rhs (p_tn P) (c_env c) r (c_orc c)) as [v o] eqn:Er.
     destruct (edge_sat _ _ _ (upd (c_env c) x v) Hi) as [t' [Ht' Hs']].
-    { apply sat_set; [assumption | eapply rhs_sound; eauto]. }
+    { apply sat_set; [assumption | eapply (rhs_sound tn P); eauto]. }
     simpl. exists g, t'. simpl. auto.
   - (* IGuard *)
     apply andb_true_iff in Hi. destruct Hi as [H1 H2].
     destruct (c_env c x) eqn:Ex.
-    + destruct (edge_sat _ _ _ (c_env c) H2) as [t' [Ht' Hs']].
-      { apply sat_set_same; [assumption|]. rewrite Ex. split; [intro H; discriminate | intros _; discriminate]. }
+    + apply orb_true_iff in H2. destruct H2 as [H2 | H2].
+      { exfalso. destruct (Hs x) as [Hn _]. apply (Hn H2). exact Ex. }
+      destruct (edge_sat _ _ _ (c_env c) H2) as [t' [Ht' Hs']].
+      { apply sat_set_same; [assumption|]. rewrite Ex. apply sat_nil. }
       simpl. exists g, t'. simpl. auto.
     + destruct (edge_sat _ _ _ (c_env c) H1) as [t' [Ht' Hs']].
-      { apply (sat_setnn (c_env c) (nann t)); [assumption | rewrite Ex; discriminate]. }
+      { apply (sat_setnn tn (c_env c) (nann t)); [assumption | rewrite Ex; discriminate]. }
       simpl. exists g, t'. simpl. auto.
     + destruct (edge_sat _ _ _ (c_env c) H1) as [t' [Ht' Hs']].
-      { apply (sat_setnn (c_env c) (nann t)); [assumption | rewrite Ex; discriminate]. }
+      { apply (sat_setnn tn (c_env c) (nann t)); [assumption | rewrite Ex; discriminate]. }
       simpl. exists g, t'. simpl. auto.
   - (* ITypeTest *)
     apply andb_true_iff in Hi. destruct Hi as [H1 H2].
     assert (Hfail : forall o, outcome_ok (Next (mkConf (c_f c) n2 (upd (c_env c) x VNil) o (c_stack c)))).
     { intro o. destruct (edge_sat _ _ _ (upd (c_env c) x VNil) H2) as [t' [Ht' Hs']].
-      { apply sat_set; [assumption|]. split; [intro H; discriminate | intros _; discriminate]. }
+      { apply sat_set; [assumption|]. apply sat_nil. }
       simpl. exists g, t'. simpl. auto. }
+    (* a successful test: y is not nil, and if y is a typed nil and the target is a pointer type, it is that type *)
     assert (Hok : forall o, c_env c y <> VNil ->
+               (forall t' T, c_env c y = VTNil t' -> tgt = Some T -> t' = T) ->
                outcome_ok (Next (mkConf (c_f c) n1 (upd (c_env c) x (assertv ti (c_env c y))) o (c_stack c)))).
-    { intros o Hy. destruct (edge_sat _ _ _ (upd (c_env c) x (assertv ti (c_env c y))) H1) as [t' [Ht' Hs']].
-      { apply (sat_set (c_env c) (N.setbit (nd_nn t) y, nd_cl t)); [apply (sat_setnn (c_env c) (nann t)); assumption|].
-        destruct (Hs y) as [_ Hcl]. unfold a_get in Hcl. simpl in Hcl. unfold nann in Hcl. simpl in Hcl.
-        split; simpl; intro H.
-        - destruct (c_env c y) eqn:Ey; simpl; try congruence.
-          destruct ti; simpl in *; [discriminate | specialize (Hcl H); congruence].
-        - destruct (c_env c y) eqn:Ey; simpl; try discriminate.
-          destruct ti; simpl in *; [specialize (Hcl H); congruence | discriminate]. }
+    { intros o Hy Hty. destruct (edge_sat _ _ _ (upd (c_env c) x (assertv ti (c_env c y))) H1) as [t' [Ht' Hs']].
+      { apply (sat_set tn (c_env c) (N.setbit (nd_nn t) y, nd_cl t)); [apply (sat_setnn tn (c_env c) (nann t)); assumption|].
+        destruct (Hs y) as [_ [Hcl Htn]]. unfold a_get, nann in Hcl. simpl in Hcl.
+        destruct (c_env c y) as [|ty|] eqn:Ey; simpl.
+        - congruence.
+        - destruct ti; simpl.
+          + split; [intros _; discriminate | split; [intro H; specialize (Hcl H); discriminate Hcl | exact Htn]].
+          + split; [|split; [reflexivity | apply tn_ok_nil]].
+            intro H. exfalso. apply orb_true_iff in H. destruct H as [H | H].
+            * specialize (Hcl H). discriminate Hcl.
+            * destruct tgt as [T|]; [|discriminate H]. apply negb_true_iff in H.
+              rewrite <- (Hty ty T eq_refl eq_refl) in H.
+              assert (Hin : In ty tn) by (apply Htn; reflexivity).
+              unfold mem in H. assert (Hex : existsb (N.eqb ty) (p_tn P) = true).
+              { apply existsb_exists. exists ty. split; [exact Hin | apply N.eqb_refl]. }
+              rewrite Hex in H. discriminate H.
+        - apply sat_ptr. }
       simpl. exists g, t'. simpl. auto. }
-    destruct (c_env c y) eqn:Ey.
-    + apply Hfail.
-    + destruct (pop (c_orc c)) as [k o]. destruct (N.eqb k 0); [apply Hfail | apply Hok; discriminate].
-    + destruct (pop (c_orc c)) as [k o]. destruct (N.eqb k 0); [apply Hfail | apply Hok; discriminate].
+    destruct (c_env c y) as [|ty|] eqn:Ey.
+    + destruct tgt; apply Hfail.
+    + destruct tgt as [T|].
+      * destruct (N.eqb ty T) eqn:ET; [|apply Hfail].
+        apply N.eqb_eq in ET. subst T. apply Hok; [discriminate|].
+        intros t' T' H1' H2'. inversion H1'; inversion H2'; subst; reflexivity.
+      * destruct (pop (c_orc c)) as [k o]. destruct (N.eqb k 0); [apply Hfail | apply Hok; [discriminate|]].
+        intros t' T' _ H2'. discriminate H2'.
+    + assert (Hp : forall o, outcome_ok (Next (mkConf (c_f c) n1 (upd (c_env c) x (assertv ti VPtr)) o (c_stack c)))).
+      { intro o. apply Hok; [discriminate|]. intros t' T' H1'. discriminate H1'. }
+      destruct tgt; destruct (pop (c_orc c)) as [k o]; destruct (N.eqb k 0); try apply Hfail; apply Hp.
   - (* IUse *)
     apply andb_true_iff in Hi. destruct Hi as [H1 H2].
-    destruct (c_env c x) eqn:Ex.
+    destruct (c_env c x) as [|tx|] eqn:Ex.
     + simpl. apply orb_true_iff in H1. destruct H1 as [H1 | H1]; [|apply mem_In; assumption].
       apply andb_true_iff in H1. destruct H1 as [Ha _]. destruct (Hs x) as [Hn _]. exfalso. apply (Hn Ha). exact Ex.
     + simpl. apply orb_true_iff in H1. destruct H1 as [H1 | H1]; [|apply mem_In; assumption].
-      apply andb_true_iff in H1. destruct H1 as [_ Hb]. destruct (Hs x) as [_ Hn]. exfalso. apply (Hn Hb). exact Ex.
+      apply andb_true_iff in H1. destruct H1 as [_ Hb]. destruct (Hs x) as [_ [Hn _]]. exfalso.
+      specialize (Hn Hb). rewrite Ex in Hn. discriminate Hn.
     + destruct (edge_sat _ _ _ (c_env c) H2) as [t' [Ht' Hs']].
-      { apply sat_set_same; [assumption|]. rewrite Ex. split; intros _; discriminate. }
+      { apply sat_set_same; [assumption|]. rewrite Ex. apply sat_ptr. }
       simpl. exists g, t'. simpl. auto.
   - (* IStore *)
     apply andb_true_iff in Hi. destruct Hi as [H1 H2].
     destruct (store_bad c03 m (c_env c x)) eqn:Eb.
     + simpl. apply orb_true_iff in H1. destruct H1 as [H1 | H1]; [|apply mem_In; assumption].
-      exfalso. destruct (Hs x) as [Hn Hc]. unfold a_get, nann in Hn, Hc. simpl in Hn, Hc.
+      exfalso. destruct (Hs x) as [Hn [Hc _]]. unfold a_get, nann in Hn, Hc. simpl in Hn, Hc.
       destruct m; simpl in H1, Eb.
       * apply andb_true_iff in H1. destruct H1 as [Ha Hb]. specialize (Hn Ha). specialize (Hc Hb).
-        destruct (c_env c x); congruence.
-      * specialize (Hc H1). destruct (c_env c x); congruence.
-      * destruct (c_env c x); try discriminate. subst c03. simpl in H1. specialize (Hc H1). congruence.
+        destruct (c_env c x); simpl in *; congruence.
+      * specialize (Hc H1). destruct (c_env c x); simpl in *; congruence.
+      * destruct (c_env c x); try discriminate. subst c03. simpl in H1. specialize (Hc H1). simpl in Hc. discriminate Hc.
     + destruct (edge_sat _ _ _ (c_env c) H2) as [t' [Ht' Hs']].
       { destruct m; simpl.
-        - apply sat_set_same; [assumption|]. simpl in Eb. destruct (c_env c x); try discriminate. split; intros _; discriminate.
-        - apply (sat_setcl (c_env c) (nann t)); [assumption|]. simpl in Eb. destruct (c_env c x); try discriminate.
+        - apply sat_set_same; [assumption|]. simpl in Eb. destruct (c_env c x); try discriminate. apply sat_ptr.
+        - apply (sat_setcl tn (c_env c) (nann t)); [assumption|]. simpl in Eb. destruct (c_env c x); try discriminate; reflexivity.
         - assumption. }
       simpl. exists g, t'. simpl. auto.
   - (* ICall *)
@@ -330,20 +389,22 @@ Proof.
     + destruct (edge_sat _ _ _ (c_env c) H2) as [t' [Ht' Hs']]; [assumption|]. simpl. exists g, t'. simpl. auto.
     + destruct (edge_sat _ _ _ (c_env c) H1) as [t' [Ht' Hs']]; [assumption|]. simpl. exists g, t'. simpl. auto.
   - (* IRet *)
-    pose proof (all2_sat _ _ _ _ Hs Hi) as HF.
+    pose proof (all2_sat tn _ _ _ _ Hs Hi) as HF.
     destruct (c_stack c) as [|fr stk] eqn:Estk.
     + simpl. simpl in Hstk. unfold main_results. rewrite <- Hstk, Hg. exact HF.
     + simpl in Hstk. destruct Hstk as [[gf [Hgf Hfr]] Hrest].
       rewrite Hg in Hgf. inversion Hgf; subst gf.
       destruct Hfr as [g' [Hg' Hres]]. destruct (Hres _ HF) as [t' [Ht' Hs']].
       simpl. exists g', t'. simpl. auto.
+  - (* IHalt *)
+    exact I.
 Qed.
 
 Lemma run_ok : forall n c, conf_ok c -> outcome_ok (run c03 P n c).
 Proof.
   induction n as [|n IH]; intros c Hc; simpl.
   - exact Hc.
-  - pose proof (step_ok c Hc) as Hs. destruct (step c03 P c) as [c' | vs | s |]; auto.
+  - pose proof (step_ok c Hc) as Hs. destruct (step c03 P c) as [c' | vs | | s |]; auto.
 Qed.
 
 Lemma init_ok : forall args orc, Forall2 val_sat args main_params -> conf_ok (init P args orc).
@@ -352,7 +413,7 @@ Proof.
   destruct (getf P (p_main P)) as [g|] eqn:Eg.
   - pose proof (funcs_ok _ _ Eg) as Hcf. unfold check_func in Hcf. apply andb_true_iff in Hcf.
     destruct Hcf as [He _]. unfold entry_ok in He.
-    destruct (edge_sat _ _ _ (bind_params args) He) as [t [Ht Hs]]; [apply bind_sat; assumption|].
+    destruct (edge_sat _ _ _ (bind_params args) He) as [t [Ht Hs]]; [apply (bind_sat tn); assumption|].
     exists g, t. simpl. auto.
   - unfold check_prog in Hchk. rewrite Eg in Hchk. discriminate.
 Qed.
@@ -369,11 +430,61 @@ Proof.
   intros c g t rs [g' [t' [Hg' [Ht' [Hs _]]]]] Hg Ht Hi.
   rewrite Hg in Hg'. inversion Hg'; subst g'. rewrite Ht in Ht'. inversion Ht'; subst t'.
   pose proof (node_ok_at _ _ _ (funcs_ok _ _ Hg) Ht) as Hok. rewrite Hi in Hok. simpl in Hok.
-  eapply all2_sat; eauto.
+  eapply (all2_sat tn); eauto.
 Qed.
 
 End Sound.
 
 (* arguments that are all usable meet any parameter spec of the same length *)
-Lemma all_ptr_sat : forall ps, Forall2 val_sat (map (fun _ => VPtr) ps) ps.
-Proof. induction ps; simpl; constructor; auto. split; intros _; discriminate. Qed.
+Lemma all_ptr_sat : forall tn ps, Forall2 (val_sat tn) (map (fun _ => VPtr) ps) ps.
+Proof. induction ps; simpl; constructor; auto. apply sat_ptr. Qed.
+
+(* ---- the statements used by Properties/C01_nil.v and C03_nil.v ---- *)
+
+(* the entry function is called with usable arguments (Parse(ctx, r) with non-nil ctx and r) *)
+Definition ptr_args (P : prog) : list val := map (fun _ => VPtr) (main_params P).
+
+(* what a value guaranteed (nn, cl) can be *)
+Definition meets (P : prog) (v : val) (q : av) : Prop := val_sat (p_tn P) v q.
+
+Theorem nil_safe : forall c03 P allow, check_prog c03 P allow = true -> forall orc n,
+  match run c03 P n (init P (ptr_args P) orc) with
+  | Bad s => In s allow
+  | Stuck => False
+  | Done vs => Forall2 (meets P) vs (main_results P)
+  | Halted => True
+  | Next _ => True
+  end.
+Proof.
+  intros c03 P allow H orc n.
+  pose proof (check_sound c03 P allow H (ptr_args P) orc n (all_ptr_sat (p_tn P) (main_params P))) as Hs.
+  destruct (run c03 P n (init P (ptr_args P) orc)); simpl in Hs; auto.
+Qed.
+
+(* whenever a function of the program returns, the returned values meet its result spec *)
+Theorem returns_meet_spec : forall c03 P allow, check_prog c03 P allow = true -> forall orc n c,
+  run c03 P n (init P (ptr_args P) orc) = Next c ->
+  forall g t rs, getf P (c_f c) = Some g -> getn g (c_pc c) = Some t -> nd_instr t = IRet rs ->
+  Forall2 (meets P) (map (eval_arg (c_env c)) rs) (fs_results (fn_spec g)).
+Proof.
+  intros c03 P allow H orc n c Hr g t rs Hg Ht Hi.
+  pose proof (check_sound c03 P allow H (ptr_args P) orc n (all_ptr_sat (p_tn P) (main_params P))) as Hs.
+  rewrite Hr in Hs. simpl in Hs. eapply ret_sound; eauto.
+Qed.
+
+(* a function whose spec declares every result clean never returns a typed nil *)
+Definition spec_clean (P : prog) (f : N) : bool :=
+  match getf P f with Some g => forallb snd (fs_results (fn_spec g)) | None => false end.
+
+Theorem clean_results : forall c03 P allow f, check_prog c03 P allow = true -> spec_clean P f = true ->
+  forall orc n c, run c03 P n (init P (ptr_args P) orc) = Next c -> c_f c = f ->
+  forall g t rs, getf P f = Some g -> getn g (c_pc c) = Some t -> nd_instr t = IRet rs ->
+  Forall (fun v => tnil v = false) (map (eval_arg (c_env c)) rs).
+Proof.
+  intros c03 P allow f H Hc orc n c Hr Hf g t rs Hg Ht Hi. subst f.
+  pose proof (returns_meet_spec c03 P allow H orc n c Hr g t rs Hg Ht Hi) as HF.
+  unfold spec_clean in Hc. rewrite Hg in Hc.
+  revert Hc. induction HF as [|v q vs qs' Hv HF IH]; intro Hc; [constructor|].
+  simpl in Hc. apply andb_true_iff in Hc. destruct Hc as [Hq Hc].
+  constructor; [apply (proj1 (proj2 Hv)); exact Hq | apply IH; exact Hc].
+Qed.
